@@ -11,7 +11,7 @@
 //   - Parse(Format(s)) must be s (Octal/Hex: any bytes; Unicode/Utf16: valid
 //     UTF-8, invalid bytes arrive as U+FFFD);
 //   - every Parse form on every input: no panic, returns, at most len(input)
-//     bytes, nothing written beyond the returned length, src untouched;
+//     bytes, nothing written beyond dst[len(input)], src untouched;
 //   - input without a backslash comes back unchanged;
 //   - canonical escapes separated by non-empty backslash-free text are replaced
 //     by what they denote, the text is preserved.
@@ -23,8 +23,9 @@
 // situations a "call, then look at the result" monitor never produces: results
 // kept and re-read after later calls through a reused, overwritten argument
 // arena (reuse.go), inputs beside every power of two up to 256 KiB with escapes
-// across the power-of-two offsets (big.go), and one fresh process per entry
-// point (cold.go).
+// across the power-of-two offsets (big.go), backslash-free input of every
+// content class and size (plain.go), and one fresh process per entry point
+// (cold.go).
 package main
 
 import (
@@ -294,8 +295,9 @@ func runTask(c *ev.Case, ts []task, idx int) {
 
 func main() {
 	r := ev.New("C07")
-	r.Rule("random engines: one case = 8 seeded strings (round trip: bytes / UTF-8 / invalid UTF-8 / escape look-alikes given to all four Format functions and back through all Parse forms; hostile: token sequences of good, truncated, wrong-digit, out-of-range, surrogate and wrong-tag escapes, cut, overwritten, given to all four parsers; embedded: canonical escapes between non-empty backslash-free literals with the result known by construction); distinct = hash of the 8 strings; enum engine: one case = one block of an exhaustive enumeration (all code points, all byte pairs, all \\uXXXX values, all \\ddd, all token sequences up to depth 3 cut at every position), independent of the seed; kept / kept-serial: one case = 4..14 consecutive calls on one goroutine through one argument arena that is overwritten after every call and reused at the same address (next input often = previous with one byte changed, or the same content again), every returned string/slice kept and re-read after every later step; big: one case = one input whose length sits beside a power of two from 16 to 256 KiB (Format of big data and back, or escapes laid across the power-of-two offsets of a long text, intact or damaged); cold-start: one case = one fresh process whose first golib call is one of the 28 entry points; non-trivial = every case (each makes >= 4 golib calls, usually >= 30, whose results are all judged)")
-	r.Assume("a returned string or slice is a value: it must read the same bytes after the caller overwrites its own argument buffer and after any number of further calls; a []byte result belongs to the caller, who may overwrite it without influencing later results (the statement's equalities are between values)")
+	r.Rule("random engines: one case = 8 seeded strings (round trip: bytes / UTF-8 / invalid UTF-8 / escape look-alikes given to all four Format functions and back through all Parse forms; hostile: token sequences of good, truncated, wrong-digit, out-of-range, surrogate and wrong-tag escapes, cut, overwritten, given to all four parsers; embedded: canonical escapes between non-empty backslash-free literals with the result known by construction); distinct = hash of the 8 strings; enum engine: one case = one block of an exhaustive enumeration (all code points, all byte pairs, all \\uXXXX values, all \\ddd, all token sequences up to depth 3 cut at every position), independent of the seed; kept / kept-serial: one case = 4..14 consecutive calls on one goroutine through one argument arena that is overwritten after every call and reused at the same address (next input often = previous with one byte changed, or the same content again), every returned string/slice kept and re-read after every later step (except zero-copy views of the argument buffer itself); plain: one case = 4 backslash-free inputs (escape look-alikes, escapes with the backslash replaced, any bytes, valid / invalid UTF-8, runs; every length 0..80 in turn and lengths beside the powers of two up to 256 KiB) given to all four parsers in all forms; big: one case = one input whose length sits beside a power of two from 16 to 256 KiB (Format of big data and back, or escapes laid across the power-of-two offsets of a long text, intact or damaged); cold-start: one case = one fresh process whose first golib call is one of the 28 entry points; non-trivial = every case (each makes >= 4 golib calls, usually >= 30, whose results are all judged)")
+	r.Assume("a returned string or slice must read the same bytes after any number of further calls; a []byte result belongs to the caller, who may overwrite it without influencing later results (the statement's equalities are between values). Not assumed: that a result is a copy. A result that is a zero-copy view of the caller's own []byte argument is judged when it is returned and not re-read after the caller has overwritten that buffer; Parse(dst, src) may use dst[n:len(src)] as scratch space")
+	r.Assume("an argument is input only: no Format / Parse form changes the bytes of its s / src argument (the statement's equalities name the same s on both sides); dst == src is the caller's explicit request for in-place operation and is held to the safety clauses only")
 	r.Assume("unicode/utf8 of the Go standard library defines valid UTF-8 and the UTF-8 encoding of a code point; the escape grammar and the value of an escape are re-derived in the harness from the property statement")
 	r.Assume("for inputs with a backslash that are neither exactly a Format image nor canonical escapes separated by non-empty backslash-free text, the statement promises safety only (no panic, termination, at most len(input) bytes); nothing else is asserted there")
 	r.Assume("an escape at the very start or end of the input counts as embedded (the empty string is backslash-free text); escapes adjacent to each other are asserted only when the whole input is a Format image")
@@ -337,6 +339,8 @@ func main() {
 	r.Cases("kept-serial", r.N(20000, 300000), serial, keptCase)
 	// lengths on both sides of the powers of two up to 256 KiB, escapes across power-of-two offsets
 	r.Cases("big", r.N(3200, 60000), ev.Opt{HangViolation: true, MaxCaseSeconds: 60}, bigCase)
+	// backslash-free input of every content class, short and beside the powers of two up to 256 KiB
+	r.Cases("plain", r.N(2400, 60000), ev.Opt{HangViolation: true, MaxCaseSeconds: 60}, plainCase)
 	// one fresh process per entry point
 	r.CasesProc("cold-start", coldCases, ev.Opt{Procs: coldCases, AlwaysLog: true, HangViolation: true, MaxCaseSeconds: 60}, coldCase)
 
@@ -356,6 +360,13 @@ func main() {
 	r.Require("big/escapes_straddling_an_offset_ge_4096", 400)
 	r.Require("big/damaged_parse_cases", 300)
 	r.Require("cold_start_cases", coldCases)
+	r.Require("plain/inputs", 9000)
+	r.Require("plain/inputs_not_valid_utf8", 1500)
+	r.Require("plain/escapes-with-the-backslash-replaced", 600)
+	r.Require("plain/input_shorter_than_one_escape", 300)
+	r.Require("plain/input_ge_4KiB", 150)
+	r.Require("plain/input_ge_64KiB", 30)
+	r.Require("plain/input_ge_256KiB", 5)
 	for _, cd := range codecs {
 		r.Require(cd.name+"/round_trips", 100000)
 		r.Require(cd.name+"/parse_unspecified", 50000)
@@ -363,7 +374,15 @@ func main() {
 		r.Require(cd.name+"/embedded_escapes_decoded", 20000)
 		r.Require(cd.name+"/unspecified_left_verbatim", 1000)
 		r.Require(cd.name+"/unspecified_partly_decoded", 1000)
+		r.Require(cd.name+"/embedded_escape_at_start_of_input", 10000)
+		r.Require(cd.name+"/embedded_escape_at_end_of_input", 10000)
+		r.Require(cd.name+"/images_of_adjacent_escapes", 50000)
 	}
+	r.Require("Utf16/embedded_surrogate_pairs_decoded", 20000)
+	r.Require("Utf16/embedded_surrogate_pair_at_end_of_input", 2000)
+	r.Require("octal_digit_triples_enumerated", 1000)
+	r.Require("hex_digit_pairs_enumerated", 961)
+	r.Require("token_sequence_inputs_enumerated", 50000)
 	r.Require("codepoints_round_tripped_singly", 0x110000-0x800)
 	r.Require("byte_pairs_round_tripped", 65536)
 	r.Require("u_escape_values_enumerated", 65536)
@@ -375,6 +394,18 @@ func main() {
 	r.Require("hostile/out-of-range", 1000)
 	r.Require("hostile/lone-high-surrogate", 300)
 	r.Require("hostile/reversed-pair", 300)
+	r.Require("hostile/lone-low-surrogate", 300)
+	r.Require("hostile/lone-surrogate", 300)
+	r.Require("hostile/high-then-non-surrogate", 300)
+	r.Require("hostile/high-literal-low", 300)
+	r.Require("hostile/high-then-truncated", 300)
+	r.Require("hostile/high-then-bad-digit", 300)
+	r.Require("hostile/high-high-low", 300)
+	r.Require("hostile/unicode-surrogate-value", 300)
+	r.Require("hostile/lower-case-digits", 1000)
+	r.Require("hostile/wrong-tag-case", 300)
+	r.Require("hostile/backslash-before-escape", 300)
+	r.Require("hostile/escape-then-backslash", 300)
 	r.Require("hostile/cut-by-end-of-input", 1000)
 	r.Require("embedded_escape_at_end_of_input", 1000)
 	r.Finish()
